@@ -50,6 +50,9 @@ type Prop struct {
 	// rapid campaign; it returns the cases.
 	Exhaustive  func(env *Env) []any
 	Assumptions []string
+	// NoConfirm: the check never uses the compile server (or is schedule dependent), so a
+	// second CLI-only evaluation would add nothing (or lose a non-deterministic failure).
+	NoConfirm bool
 }
 
 var registry = map[string]*Prop{}
@@ -76,7 +79,7 @@ type Env struct {
 	Repo      string
 	Known     *Known
 	Stats     *Stats
-	NoServer  bool // true: compile through the real CLI only (confirmation runs, replays)
+	NoServer  bool     // true: compile through the real CLI only (confirmation runs, replays)
 	res       sync.Map // lazily created co-processes etc.
 	seq       int64
 	mu        sync.Mutex
